@@ -6,7 +6,13 @@ BS = '\\'
 
 
 def split_both(s: str) -> list:
-    return [c for c in s.replace(BS, '/').split('/') if c != '']
+    return [c for c in s.replace(BS, '/').split('/') if c not in ('', '.')]
+
+
+def noncanon(text: str) -> bool:
+    """Does the text contain '.' or empty segments other than one trailing separator?"""
+    segs = text.replace(BS, '/').split('/')
+    return any(c in ('', '.') for c in segs[:-1]) or segs[-1] == '.'
 
 
 def spell_sig(toks: list, files: list) -> str:
@@ -37,7 +43,8 @@ def walk_flags(backend: str, arg: str, files: list) -> dict:
         if inside and [c.casefold() for c in comps[:len(folder)]] != list(comps[:len(folder)]):
             folds = True          # a file inside is stored with a folder spelling that is not its case-folded form
     return {'backend': backend, 'folder': 'empty' if arg == '' else 'named', 'trail': arg.endswith(('/', BS)),
-            'strprefix': strprefix, 'casediff': casediff, 'folds': folds, 'backslash': BS in arg}
+            'strprefix': strprefix, 'casediff': casediff, 'folds': folds, 'backslash': BS in arg,
+            'noncanon': noncanon(arg)}
 
 
 
@@ -52,4 +59,10 @@ def chain_walk_flags(rec: dict, walk: dict) -> dict:
             if head != pfx and [c.casefold() for c in head] == [c.casefold() for c in pfx]:
                 pfxcase = True
     arg = ''.join(s + c for s, c in walk['toks'])
-    return {'backend': 'chain', 'folder': 'empty' if arg == '' else 'named', 'pfxcase': pfxcase}
+    pfxback = any(BS in m.get('pfxs', '') for m in rec['members'])
+    # a zip/VPK member whose prefix spelling makes the chain hand it texts with '.' or empty segments
+    import posixpath
+    oddpfx = any(m['backend'] in ('zip', 'vpk') and noncanon(posixpath.join(m.get('pfxs', ''), 'x').replace(BS, '/'))
+                 for m in rec['members'])
+    return {'backend': 'chain', 'folder': 'empty' if arg == '' else 'named', 'pfxcase': pfxcase, 'pfxback': pfxback,
+            'oddpfx': oddpfx}
